@@ -16,7 +16,7 @@ func init() {
 	Registry["C03"] = func(r *Run) *core.Report { return mapProtocol(r, "C03", 0) }
 	Registry["C04"] = func(r *Run) *core.Report { return mapProtocol(r, "C04", 1) }
 	expl := func(which, p1 string) string {
-		return "Linearizability of " + which + " is NOT decided (it quantifies over interleavings). Decided, on every CFG path, are the protocol-shape obligations without which this design cannot be linearizable: " + p1 + " - decided for Load and for every other function reachable from the API that reads a bucket slot outside the chain's lock and returns a (value, found) pair; (P2) unique value pointers / immutable entries (slot pointers are per-call allocations, published entries are never written); (P3) after taking the bucket lock a writer touches the bucket only after seeing the resize flag clear and then the table pointer unchanged, in that order, and a bucket-word write justified by the lock occurs in the compute core (or in a function only it calls) and nowhere else - the validation is decided on the core's paths; (P4) in resize all bucket copies precede the single publishing store of the very table they filled, which precedes clearing the flag, and the table pointer is stored nowhere else except the constructor; (P5) bucket words are written only under the bucket lock: in the compute core on every path, and at every other write of a bucket word - atomic store, swap, add or compare-and-swap, or plain - in any function reachable from the public API, unless the bucket written is not yet published (the copy's destination, a new overflow bucket); (P6) the copy runs under the source bucket's lock and leaves the source intact; (P7) Clear's resize request reaches the publishing store of a fresh table on every path to its return (it cannot be dropped); (P8) bucket array, mask and seed of an attempt come from one table value, in every function reachable from the API that selects a bucket by a hashed key; (P10) a packed bucket word (meta / top-hash) is rewritten from a read of the same bucket's word; (P11) the lock-free lookup - and any other lock-free reader whose 'not found' some caller takes as final (returns without going on to the compute core) - reports a key absent only on a path whose last chain-link test saw 'next == nil'; (P3a/b) the resize flag goes 0 -> one non-zero constant -> 0 and every test of it tells that constant from 0, and the table re-check compares pointer identity; (P12) packed-word arithmetic is carried out in 64 bits; (P14) a slot write pairs a bucket with an index found in that very bucket (both used directly, or remembered together; one index value, one bucket value)."
+		return "Linearizability of " + which + " is NOT decided (it quantifies over interleavings). Decided, on every CFG path, are the protocol-shape obligations without which this design cannot be linearizable: " + p1 + " - decided for Load (or, when Load only hands out what one shared reader found, for that reader) and for every other function reachable from the API that reads a bucket slot outside the chain's lock and returns a (value, found) pair or a pointer with nil for 'not found'; (P2) unique value pointers / immutable entries (slot pointers are per-call allocations, published entries are never written); (P3) after taking the bucket lock a writer touches the bucket only after seeing the resize flag clear and then the table pointer unchanged, in that order, and a bucket-word write justified by the lock occurs in the compute core (or in a function only it calls) and nowhere else - the validation is decided on the core's paths; (P4) in resize all bucket copies precede the single publishing store of the very table they filled, which precedes clearing the flag, and the table pointer is stored nowhere else except the constructor; (P5) bucket words are written only under the bucket lock: in the compute core on every path, and at every other write of a bucket word - atomic store, swap, add or compare-and-swap, or plain - in any function reachable from the public API, unless the bucket written is not yet published (the copy's destination, a new overflow bucket); (P6) the copy runs under the source bucket's lock and leaves the source intact; (P7) Clear's resize request reaches the publishing store of a fresh table on every path to its return (it cannot be dropped); (P8) bucket array, mask and seed of an attempt come from one table value, in every function reachable from the API that selects a bucket by a hashed key; (P10) a packed bucket word (meta / top-hash) is rewritten from a read of the same bucket's word; (P11) the lock-free lookup - and any other lock-free reader whose 'not found' some caller takes as final (returns without going on to the compute core) - reports a key absent only on a path whose last chain-link test saw 'next == nil'; (P3a/b) the resize flag goes 0 -> one non-zero constant -> 0 and every test of it tells that constant from 0, and the table re-check compares pointer identity; (P12) packed-word arithmetic is carried out in 64 bits; (P14) a slot write pairs a bucket with an index found in that very bucket (both used directly, or remembered together; one index value, one bucket value)."
 	}
 	Metas["C03"] = Meta{Explanation: expl("Map", "(P1) the lock-free reader returns a value only after reading the value pointer, then the key pointer, matching the key, and re-reading the same value slot unchanged"),
 		Rule:        "one obligation per (rule, function/specialisation, exit | site); non-trivial = decided by exploring the product of the CFG with the protocol automaton or by a provenance query",
@@ -342,14 +342,19 @@ func p12WordWidth(r *Run, rep *core.Report, rule string) {
 // live further down the chain - slots are freed by deletes and reused, so no occupancy pattern of an earlier
 // bucket implies the end of the chain.
 func p11Absence(r *Run, rep *core.Report, rule string, mm *core.MapModel) {
-	p11AbsenceOn(r, rep, rule, mm, mm.Methods["Load"])
+	if h := loadDelegate(r, core.NewReport("tmp"), "tmp", mm); h != nil {
+		p11AbsenceOn(r, rep, rule, mm, h) // Load's 'not found' is its reader's
+	} else {
+		p11AbsenceOn(r, rep, rule, mm, mm.Methods["Load"])
+	}
 	// a second lock-free reader whose 'not found' some caller takes as final (it returns without going on to the locked
 	// read-modify-write) answers the same question as Load and must not give up before the end of the chain either; one
 	// that is only a fast path in front of the locked operation may give up whenever it likes
 	readers, _ := secondReaders(r, mm)
 	_, others := secondReadersAll(r, mm)
+	hd := loadDelegate(r, core.NewReport("tmp"), "tmp", mm)
 	for _, g := range append(readers, others...) {
-		if missTakenAsFinal(r, mm, g) {
+		if g != hd && missTakenAsFinal(r, mm, g) {
 			p11AbsenceOn(r, rep, rule, mm, g)
 		}
 	}
@@ -426,6 +431,30 @@ func onFlagEdge(b *ssa.BasicBlock, call *ssa.Call, hit bool) bool {
 		}
 		break
 	}
+	if bo, isB := cond.(*ssa.BinOp); isB && (bo.Op == token.NEQ || bo.Op == token.EQL) {
+		// a reader that returns a pointer: 'p != nil' is its found flag
+		var other ssa.Value
+		switch {
+		case core.StripConv(bo.X) == ssa.Value(call):
+			other = bo.Y
+		case core.StripConv(bo.Y) == ssa.Value(call):
+			other = bo.X
+		}
+		if other == nil || !core.IsNilConst(other) {
+			return false
+		}
+		if bo.Op == token.EQL {
+			neg = !neg
+		}
+		hitIdx := 0
+		if neg {
+			hitIdx = 1
+		}
+		if hit {
+			return p.Succs[hitIdx] == b
+		}
+		return p.Succs[1-hitIdx] == b
+	}
 	if cond != ssa.Value(call) {
 		return false
 	}
@@ -454,7 +483,12 @@ func p11AbsenceOn(r *Run, rep *core.Report, rule string, mm *core.MapModel, f *s
 			return []bool{s}
 		}
 		for _, res := range ret.Results {
-			if b, isC := core.ConstBool(res); isC && !b {
+			_, isPtr := res.Type().Underlying().(*types.Pointer)
+			if bt, isB := res.Type().Underlying().(*types.Basic); isB && bt.Kind() == types.UnsafePointer {
+				isPtr = true
+			}
+			nilMiss := len(ret.Results) == 1 && isPtr && core.IsNilConst(res) // a reader that returns a pointer: nil is 'not found'
+			if b, isC := core.ConstBool(res); (isC && !b) || nilMiss {
 				nAbs++
 				if !s && bad == "" {
 					bad = "the lookup reports the key absent on a path that has not reached the end of the bucket chain (next == nil): a key stored further down the chain is reported missing"
@@ -487,7 +521,103 @@ type snapState struct {
 }
 
 func p1Snapshot(r *Run, rep *core.Report, prop string, mm *core.MapModel) {
+	if h := loadDelegate(r, rep, prop, mm); h != nil {
+		return // Load hands out what a shared reader found: that reader is judged by p1Elsewhere
+	}
 	p1SnapshotOn(r, rep, prop, mm, mm.Methods["Load"])
+}
+
+// loadDelegate: Load reads no bucket slot itself and every 'found' return of it is on the found edge of one call of a
+// lock-free reader of this map, handing out what that call returned (the value behind the returned pointer / a field of
+// the returned entry). The reader is returned, and the delegation recorded as a P1 obligation of Load.
+func loadDelegate(r *Run, rep *core.Report, prop string, mm *core.MapModel) *ssa.Function {
+	load := mm.Methods["Load"]
+	if load == nil {
+		return nil
+	}
+	reads := false
+	core.Instrs(load, func(in ssa.Instruction) {
+		if c, ok := in.(*ssa.Call); ok {
+			if op, addr, ok := core.AtomicOp(c); ok && op == "Load" {
+				if k, _ := slotKind(r, addr); k == "slot" {
+					reads = true
+				}
+			}
+		}
+	})
+	if reads {
+		return nil
+	}
+	readers, _ := secondReadersAll(r, mm)
+	is := map[*ssa.Function]bool{}
+	for _, f := range readers {
+		is[f] = true
+	}
+	var h *ssa.Function
+	var hcall *ssa.Call
+	n := 0
+	core.Instrs(load, func(in ssa.Instruction) {
+		if c, ok := in.(*ssa.Call); ok && is[core.Callee(c)] {
+			h, hcall = core.Callee(c), c
+			n++
+		}
+	})
+	if n != 1 {
+		return nil
+	}
+	bad := ""
+	nFound := 0
+	core.Instrs(load, func(in ssa.Instruction) {
+		ret, ok := in.(*ssa.Return)
+		if !ok {
+			return
+		}
+		if found, _ := foundReturn(ret); !found {
+			return
+		}
+		nFound++
+		if !onFlagEdge(ret.Block(), hcall, true) {
+			bad = "a found-return of Load is not on the found edge of its reader call"
+			return
+		}
+		if !derivesFromCall(ret.Results[0], hcall) {
+			bad = "the value Load returns is not what its reader call found"
+		}
+	})
+	if nFound == 0 {
+		return nil
+	}
+	rep.Check(bad == "", prop+".P1", fn(load)+" hands out what its reader found", r.P.Pos(load.Pos()), "every found-return is on the found edge of "+fn(h)+" and returns what that call returned", bad)
+	return h
+}
+
+// derivesFromCall: v is the call's result (or one of its results), possibly dereferenced, converted, passed through a
+// one-argument helper or with a field selected.
+func derivesFromCall(v ssa.Value, call *ssa.Call) bool {
+	for i := 0; i < 8 && v != nil; i++ {
+		v = core.StripConv(v)
+		if v == ssa.Value(call) {
+			return true
+		}
+		switch x := v.(type) {
+		case *ssa.Extract:
+			v = x.Tuple
+		case *ssa.Call:
+			if len(x.Call.Args) != 1 {
+				return false
+			}
+			v = x.Call.Args[0]
+		case *ssa.UnOp:
+			v = x.X
+		case *ssa.FieldAddr:
+			v = x.X
+		case *ssa.Field:
+			v = x.X
+		default:
+			return false
+		}
+	}
+	return false
 }
 
 func p1SnapshotOn(r *Run, rep *core.Report, prop string, mm *core.MapModel, f *ssa.Function) {
@@ -518,17 +648,20 @@ func p1SnapshotOn(r *Run, rep *core.Report, prop string, mm *core.MapModel, f *s
 				}
 			}
 		}
-		if ret, ok := in.(*ssa.Return); ok && len(ret.Results) == 2 {
-			if b, isC := core.ConstBool(ret.Results[1]); isC && b {
+		if ret, ok := in.(*ssa.Return); ok && ctx.Frame == nil {
+			if isFound, ptrShape := foundReturn(ret); isFound {
 				found++
 				okv := s.Seq == 4
 				msg := ""
 				if !okv {
 					msg = fmt.Sprintf("found-return reached with snapshot step %d/4 (value pointer -> key pointer -> key equal -> value slot re-read unchanged): a slot reused for another key between the reads yields another key's value", s.Seq)
 				} else {
-					// returned value derives from the first value pointer
+					// returned value derives from the first value pointer (a reader that returns the value pointer itself,
+					// nil meaning 'not found', returns that very pointer)
 					v := core.StripConv(ret.Results[0])
-					if c, isCall := v.(*ssa.Call); isCall && len(c.Call.Args) == 1 {
+					if ptrShape {
+						// as is
+					} else if c, isCall := v.(*ssa.Call); isCall && len(c.Call.Args) == 1 {
 						v = core.StripConv(c.Call.Args[0])
 					} else if u, isU := v.(*ssa.UnOp); isU {
 						v = core.StripConv(u.X)
@@ -640,6 +773,9 @@ func derivesFrom(v, base ssa.Value) bool {
 // ---- P1': reader over immutable entries ----
 
 func p1Entry(r *Run, rep *core.Report, prop string, mm *core.MapModel) {
+	if h := loadDelegate(r, rep, prop, mm); h != nil {
+		return
+	}
 	p1EntryOn(r, rep, prop, mm, mm.Methods["Load"])
 }
 
@@ -664,11 +800,16 @@ func p1EntryOn(r *Run, rep *core.Report, prop string, mm *core.MapModel, f *ssa.
 				}
 			}
 		}
-		if ret, ok := in.(*ssa.Return); ok && len(ret.Results) == 2 {
-			if b, isC := core.ConstBool(ret.Results[1]); isC && b {
+		if ret, ok := in.(*ssa.Return); ok {
+			if isFound, ptrShape := foundReturn(ret); isFound {
 				okv, msg := true, ""
 				if !s.Hit || s.E == nil {
 					okv, msg = false, "found-return not dominated by a successful == comparison of the loaded entry's key with the lookup key: a hash-byte match alone is taken as a hit"
+				} else if ptrShape {
+					// a reader that returns the entry itself (nil meaning 'not found')
+					if !derivesFrom(ret.Results[0], s.E) {
+						okv, msg = false, "the returned entry is not the entry whose key was compared"
+					}
 				} else {
 					ld, isLd := ret.Results[0].(*ssa.UnOp)
 					if !isLd || !derivesFrom(ld.X, s.E) || core.Addr(ld.X).Owner != mm.EntryT {
@@ -709,6 +850,41 @@ func p1EntryOn(r *Run, rep *core.Report, prop string, mm *core.MapModel, f *ssa.
 		rep.Check(rs.ok, prop+".P1", fn(f)+" found-return", r.P.InstrPos(ret), "returns the value field of the single atomically loaded entry whose key compared equal", rs.msg, m.Trace(rs.at)...)
 	}
 	rep.MinCount(prop+".P1", p1Label(mm, f), len(results), 1)
+}
+
+// foundReturn: the return reports 'found' - (value, true) for a reader of the usual shape, a non-nil pointer for a
+// reader that returns the value pointer / the entry itself with nil meaning 'not found' (ptrShape).
+func foundReturn(ret *ssa.Return) (found, ptrShape bool) {
+	switch len(ret.Results) {
+	case 2:
+		if b, isC := core.ConstBool(ret.Results[1]); isC && b {
+			return true, false
+		}
+	case 1:
+		if isPointerLike(ret.Results[0].Type()) && !core.IsNilConst(ret.Results[0]) {
+			return true, true
+		}
+	}
+	return false, false
+}
+
+func isPointerLike(t types.Type) bool {
+	if _, ok := t.Underlying().(*types.Pointer); ok {
+		return true
+	}
+	if bt, ok := t.Underlying().(*types.Basic); ok && bt.Kind() == types.UnsafePointer {
+		return true
+	}
+	return false
+}
+
+// readerShaped: the function's results have a lock-free reader's shape.
+func readerShaped(f *ssa.Function) bool {
+	res := f.Signature.Results()
+	if res.Len() == 2 && typeName(res.At(1).Type()) == "bool" {
+		return true
+	}
+	return res.Len() == 1 && isPointerLike(res.At(0).Type())
 }
 
 func p1Label(mm *core.MapModel, f *ssa.Function) string {
@@ -841,7 +1017,7 @@ func secondReadersAll(r *Run, mm *core.MapModel) (readers []*ssa.Function, other
 		if !reach[f] || covered[f] || f.Blocks == nil || r.M.Acquire[f] || r.M.Release[f] {
 			continue
 		}
-		var first ssa.Instruction
+		var first, firstAny ssa.Instruction
 		var word core.AddrPath
 		core.Instrs(f, func(in ssa.Instruction) {
 			c, ok := in.(*ssa.Call)
@@ -853,7 +1029,7 @@ func secondReadersAll(r *Run, mm *core.MapModel) (readers []*ssa.Function, other
 				return
 			}
 			k, a := slotKind(r, addr)
-			if k != "slot" || !mine[a.Owner] {
+			if k == "" || !mine[a.Owner] {
 				return
 			}
 			if fi := unpublishedAt(r, f, addr, in, 0); fi.OK {
@@ -862,13 +1038,22 @@ func secondReadersAll(r *Run, mm *core.MapModel) (readers []*ssa.Function, other
 			if ok, _ := lockCovers(r, f, addr, in, 0); ok {
 				return
 			}
-			first, word = in, a
+			if k == "slot" {
+				first, word = in, a
+			} else if firstAny == nil {
+				firstAny = in // a packed word or a chain link only: enough for a presence filter, not for a value
+			}
 		})
 		if first == nil {
+			// a filter that compares hash bits only and walks the links hands out no value either
+			res := f.Signature.Results()
+			if firstAny != nil && res.Len() == 1 && typeName(res.At(0).Type()) == "bool" && core.NamedOf(recvType(f)) == mm.Name {
+				others = append(others, f)
+			}
 			continue
 		}
 		res := f.Signature.Results()
-		if res.Len() == 2 && typeName(res.At(1).Type()) == "bool" {
+		if readerShaped(f) {
 			readers = append(readers, f)
 			continue
 		}
@@ -1803,4 +1988,11 @@ func constSign(v constant.Value) int {
 		return 0
 	}
 	return constant.Sign(v)
+}
+
+func recvType(f *ssa.Function) types.Type {
+	if f.Signature.Recv() == nil {
+		return nil
+	}
+	return f.Signature.Recv().Type()
 }
